@@ -106,7 +106,7 @@ def ev(e: list, env: dict) -> Any:
         x, y = ev(e[2], env), ev(e[3], env)
         return {"+": x + y, "-": x - y, "*": x * y, "/": (x / y) if e[1] == "/" else 0.0,
                 "^": (x ** y) if e[1] == "^" else 0.0}[e[1]]
-    if k == "rpn":
+    if k in ("rpn", "rpnu"):
         x, y = float(e[1]), float(e[3])
         return {"+": x + y, "-": x - y, "*": x * y, "/": (x / y) if e[2] == "/" else 0.0}[e[2]]
     if k == "rpnx":
@@ -142,6 +142,8 @@ def etoks(e: list, top: bool = True) -> list[str]:
         return [e[1]]
     if k == "rpn":
         return ['"' + e[1] + " " + e[3] + " " + e[2] + '"']
+    if k == "rpnu":        # unquoted reverse Polish notation: `l = 0.5 0.1 -`
+        return [e[1] + " " + e[3] + " " + e[2]]
     if k == "rpnx":
         return ['"' + e[1] + '"']
     if k == "f":
@@ -187,6 +189,8 @@ def expr_kinds(e: list, out: set) -> set:
         expr_kinds(e[3], out)
     elif k in ("rpn", "rpnx"):
         out.add("rpn")
+    elif k == "rpnu":
+        out.add("rpn-unquoted")
     return out
 
 
@@ -1891,6 +1895,9 @@ def feature_lattices() -> list:
                                                             q2, d1]), "q0", "q.0")))
         if dialect == "elegant":
             out.append(("elegant:rpn", mk([{**q1, "props": [["l", ["rpn", "0.1", "*", "2"]], ["k1", ["n", "1.5"]]]}, q2, d1])))
+            # unquoted RPN with the operators whose operand order matters
+            out.append(("elegant:rpn-unquoted -", mk([{**q1, "props": [["l", ["rpnu", "0.5", "-", "0.3"]], ["k1", ["n", "1.5"]]]}, q2, d1])))
+            out.append(("elegant:rpn-unquoted /", mk([{**q1, "props": [["l", ["n", "0.2"]], ["k1", ["rpnu", "3", "/", "2"]]]}, q2, d1])))
         else:
             out.append(("bmad:expr", mk([{"k": "var", "name": "lq", "expr": ["b", "*", ["n", "0.1"], ["n", "2"]]},
                                          {**q1, "props": [["l", ["v", "lq"]], ["k1", ["b", "^", ["n", "2"], ["n", "2"]]]]},
